@@ -20,8 +20,8 @@ Record lst := {
 
 Definition upd {A} (f : nat -> A) (n : nat) (v : A) : nat -> A := fun m => if Nat.eqb m n then v else f m.
 Definition seen_ver (s : option lrec) : N := match s with Some r => lver r | None => 0 end.
-(* LFSM.Update: the version is compared only when the key exists *)
-Definition cas_ok (r : option lrec) (v : N) : bool := match r with Some x => lver x =? v | None => true end.
+(* LFSM.Update: the supplied version must be the key's current one; a key that does not exist has version 0 *)
+Definition cas_ok (r : option lrec) (v : N) : bool := match r with Some x => lver x =? v | None => v =? 0 end.
 
 (* may node n take the lease, having read [seen] at time t?  unclaimed, its own, or expired (Until.Before(now)) *)
 Definition may_take (n : nat) (seen : option lrec) (t : N) : bool :=
